@@ -153,7 +153,11 @@ impl<'a> OuterFromImpl<'a> for FromDeriveInputImpl<'a> {
     }
 
     fn trait_bound(&self) -> syn::Path {
-        path!(::darling::FromMeta)
+        // A newtype delegates to the same trait of its field; every other field is a `FromMeta` value.
+        match self.base.data {
+            Data::Struct(ref data) if data.is_newtype() => self.trait_path(),
+            _ => path!(::darling::FromMeta),
+        }
     }
 
     fn base(&'a self) -> &'a TraitImpl<'a> {
